@@ -559,6 +559,8 @@ def eq_term(ip, a, b):
         return a is b
     if isinstance(a, VClass) and isinstance(b, VClass):
         return a.name == b.name
+    if isinstance(a, VExc) or isinstance(b, VExc):
+        return a is b
     simple = (VConst, VInt, VBool, VStr, VBytes, VTuple, VList, VFloat, VJList, VJDict, VSet, VDict)
     if isinstance(a, simple) and isinstance(b, simple) and type(a) != type(b):
         return False        # values of different Python types (beyond the numeric tower) are unequal
@@ -728,6 +730,10 @@ def tuple_order(ip, op, a, b, node):
 
 def contains(ip, cont, x, node):
     cont = resolve(ip, cont)
+    if isinstance(cont, (VSet, VDict)) and ip.mode == 'code':
+        xv = resolve(ip, x)
+        if isinstance(xv, (VJList, VJDict, VList, VDict, VSet)):
+            raise PyRaise(VExc('TypeError'), node)      # unhashable operand of a hash-based membership test
     if isinstance(cont, VSet):
         if cont.ek is None:
             return False
@@ -1155,7 +1161,7 @@ def builtin_name(ip, name):
 
 LIBRARY = {
     ('math', 'ceil'): ('builtin', 'math.ceil'), ('math', 'log'): ('builtin', 'math.log'),
-    ('math', 'floor'): ('builtin', 'math.floor'),
+    ('math', 'floor'): ('builtin', 'math.floor'), ('math', 'log2'): ('builtin', 'math.log2'),
     ('struct', 'Struct'): ('class', 'Struct'), ('struct', 'error'): ('exc', 'struct.error'),
     ('collections', 'defaultdict'): ('class', 'defaultdict'), ('collections', 'namedtuple'): ('builtin', 'namedtuple'),
     ('asyncio', 'Event'): ('class', 'Event'), ('aiorpcx', 'Event'): ('class', 'Event'),
@@ -1545,6 +1551,8 @@ def _len(ip, args, kwargs, node, fr):
         return VInt(r)
     if isinstance(v, (VInt, VBool, VFloat)) or (isinstance(v, VConst) and (v.py is None or isinstance(v.py, (int, float)))):
         raise PyRaise(VExc('TypeError'), node)
+    if isinstance(v, (VExc, VFunc, VClass)) and ip.mode == 'code':
+        raise PyRaise(VExc('TypeError'), node)      # object of this type has no len()
     raise EngineError(f'len of {v!r}')
 
 
@@ -1797,7 +1805,8 @@ def _sorted(ip, args, kwargs, node, fr):
         if ek is None:
             return VList(None, z3.IntVal(0), None)
         if ek != KInt:
-            raise EngineError('sorted of non-integers')
+            r = enum_list(ip, dom, ek)       # order not modelled for non-integers: an arbitrary enumeration
+            return r
         r = KList(KInt).fresh(ip, 'sorted')
         i, j = z3.Int(ip.fresh_name('i')), z3.Int(ip.fresh_name('j'))
         ip.assume(z3.ForAll([i, j], z3.Implies(z3.And(0 <= i, i < j, j < r.n),
@@ -2996,7 +3005,8 @@ def _log(ip, args, kwargs, node, fr):
     ip.assumed.add('T-LOG: math.log(n, 2) = log2(n) up to a relative floating-point error; not exact at powers of two')
     x = resolve(ip, args[0])
     if len(args) != 2 or not (isinstance(resolve(ip, args[1]), VConst) and resolve(ip, args[1]).py == 2):
-        raise EngineError('math.log with a base other than 2')
+        if not (len(args) == 1 and getattr(node.func, 'id', getattr(node.func, 'attr', '')) == 'log2'):
+            raise EngineError('math.log with a base other than 2')
     if not is_intlike(x):
         raise EngineError('math.log of a non-integer')
     n = int_term(x)
@@ -3118,3 +3128,6 @@ def _jd_get(ip, recv, args, kwargs, node, fr):
 @method('jdict', 'copy')
 def _jd_copy(ip, recv, args, kwargs, node, fr):
     return recv
+
+
+FUNCS['math.log2'] = _log
